@@ -59,6 +59,9 @@ ssize_t write(int fd, const void *buf, size_t n)
 ssize_t read(int fd, void *buf, size_t n)
 {
     (void)fd;
+#ifdef VP_READ_HOOK
+    return VP_READ_HOOK(buf, n);
+#endif
     uint8_t *b = (uint8_t *)buf;
     for (size_t i = 0; i < n; i++) b[i] = 0;
     if (n >= 8) b[0] = 1, b[7] = 0;      /* timerfd: one expiration (host order little or big: 1 in the low or high byte is both != 0) */
@@ -189,7 +192,9 @@ def packet_fn_listener(path, name, call, ndg=1, pre=(), extra_stubs=''):
 # C19: talker -> wire -> listener
 # ------------------------------------------------------------------------------------------
 TALKER_TU = r'''
-/* wrapper around the UNMODIFIED acf-can-talker.c: exports the packet assembly of its main loop */
+/* wrapper around the UNMODIFIED acf-can-talker.c: its real main() sending loop is executed; read()
+ * (defined with the other stubs) hands it the CAN frames, sendto() captures the packet and then
+ * reports failure so that the endless sending loop is left after one packet */
 #include <stdint.h>
 #include <string.h>
 #include <time.h>
@@ -197,37 +202,33 @@ TALKER_TU = r'''
 #include <sys/socket.h>
 #include <netinet/in.h>
 #include <linux/if_packet.h>
+#ifndef VP_DG_MAX
+#define VP_DG_MAX 1500
+#endif
+uint8_t vp_wire[VP_DG_MAX];
+int vp_wire_len = -1;
 int setup_udp_socket_address(struct in_addr *a, uint32_t port, struct sockaddr_in *s) { (void)a; (void)port; (void)s; return 0; }
 int setup_socket_address(int fd, const char *ifn, uint8_t mac[], int proto, struct sockaddr_ll *s) { (void)fd; (void)ifn; (void)mac; (void)proto; (void)s; return 0; }
-ssize_t sendto(int fd, const void *b, size_t n, int fl, const struct sockaddr *a, socklen_t l) { (void)fd; (void)b; (void)fl; (void)a; (void)l; return (ssize_t)n; }
+ssize_t sendto(int fd, const void *b, size_t n, int fl, const struct sockaddr *a, socklen_t l)
+{
+    (void)fd; (void)fl; (void)a; (void)l;
+    if (vp_wire_len < 0) {
+        vp_wire_len = (int)(n <= VP_DG_MAX ? n : VP_DG_MAX);
+        for (int i = 0; i < vp_wire_len; i++) vp_wire[i] = ((const uint8_t *)b)[i];
+        if (n > VP_DG_MAX) vp_wire_len = -2;
+    }
+    return -1;
+}
 #define main talker_main
 #include "acf-can/acf-can-talker.c"
 #undef main
-/* the body of the talker's sending loop for one packet carrying n CAN frames (acf-can-talker.c main()):
- * optional UDP encapsulation header, control format header, n x prepare_acf_packet, update_cf_length */
-int vp_talker_build(uint8_t *pdu, const frame_t *frames, int n, int tscf, int udp, int fd)
+int vp_talker_run(int n, int tscf, int udp, int fd)
 {
-    uint16_t pdu_length = 0, cf_length = 0;
-    int res;
-    use_tscf = tscf; use_udp = udp; can_variant = fd ? AVTP_CAN_FD : AVTP_CAN_CLASSIC;
-    if (use_udp) {
-        Avtp_Udp_t *udp_pdu = (Avtp_Udp_t *) pdu;
-        Avtp_Udp_SetField(udp_pdu, AVTP_UDP_FIELD_ENCAPSULATION_SEQ_NO, udp_seq_num++);
-        pdu_length += sizeof(Avtp_Udp_t);
-    }
-    uint8_t *cf_pdu = pdu + pdu_length;
-    res = init_cf_pdu(cf_pdu);
-    if (res < 0) return -1;
-    pdu_length += res; cf_length += res;
-    for (int i = 0; i < n; i++) {
-        uint8_t *acf_pdu = pdu + pdu_length;
-        res = prepare_acf_packet(acf_pdu, frames[i]);
-        if (res < 0) return -1;
-        pdu_length += res; cf_length += res;
-    }
-    res = update_cf_length(cf_pdu, cf_length);
-    if (res < 0) return -1;
-    return pdu_length;
+    char *argv[2] = { "talker", 0 };
+    use_tscf = tscf; use_udp = udp; can_variant = fd ? AVTP_CAN_FD : AVTP_CAN_CLASSIC; num_acf_msgs = n;
+    vp_wire_len = -1;
+    (void)talker_main(1, argv);
+    return vp_wire_len;
 }
 '''
 
@@ -240,15 +241,20 @@ def c19_tunnel(nframes, tscf, udp, fd, fixed_lens=()):
     o.append('#include <stdint.h>')
     o.append('static void vp_capture(const void *buf, unsigned long n);')
     o.append('#define VP_CAPTURE_WRITE(b, n) vp_capture(b, n)')
+    o.append('static long vp_next_frame(void *buf, unsigned long n);')
+    o.append('#define VP_READ_HOOK(b, n) vp_next_frame(b, n)')
     o.append(STUBS.replace('typedef struct { uint8_t d[VP_NDG][VP_DG_MAX]; uint16_t len[VP_NDG]; uint8_t cfg[4]; uint8_t st[16]; } vp_in_t;',
                            'typedef struct { uint8_t d[VP_NDG][VP_DG_MAX]; uint16_t len[VP_NDG]; uint8_t cfg[4]; uint8_t st[16]; '
-                           'struct { uint32_t can_id; uint8_t len; uint8_t flags; uint8_t data[%d]; } fr[%d]; uint8_t pdu0[VP_DG_MAX < 200 ? VP_DG_MAX : 200]; } vp_in_t;' % (maxlen, nframes)))
+                           'struct { uint32_t can_id; uint8_t len; uint8_t flags; uint8_t data[%d]; } fr[%d]; } vp_in_t;' % (maxlen, nframes)))
     o.append('#include "avtp/acf/Can.h"')
     o.append('int setup_can_socket(const char *ifn, Avtp_CanVariant_t variant) { (void)ifn; (void)variant; return 4; }')
     o.append('#define main listener_main')
     o.append('#include "acf-can/acf-can-listener.c"')
     o.append('#undef main')
-    o.append('int vp_talker_build(uint8_t *pdu, const frame_t *frames, int n, int tscf, int udp, int fd);')
+    o.append('int vp_talker_run(int n, int tscf, int udp, int fd); extern uint8_t vp_wire[]; extern int vp_wire_len;')
+    o.append('static frame_t vp_frames[%d]; static unsigned vp_frame_idx;' % nframes)
+    o.append('/* read() of the talker: the next CAN frame from the CAN socket */')
+    o.append('static long vp_next_frame(void *buf, unsigned long n) { if (vp_frame_idx >= %d) return -1; memcpy(buf, &vp_frames[vp_frame_idx], n < sizeof(frame_t) ? n : sizeof(frame_t)); vp_frame_idx++; return (long)n; }' % nframes)
     o.append('static uint8_t vp_out[%d][sizeof(struct canfd_frame)]; static unsigned vp_out_n; static unsigned long vp_out_sz[%d];' % (nframes + 1, nframes + 1))
     o.append('static void vp_capture(const void *buf, unsigned long n) { if (vp_out_n < %d) { memcpy(vp_out[vp_out_n], buf, n < sizeof(struct canfd_frame) ? n : sizeof(struct canfd_frame)); vp_out_sz[vp_out_n] = n; } vp_out_n++; }' % (nframes + 1))
     o.append('void harness(void) {')
@@ -273,9 +279,13 @@ def c19_tunnel(nframes, tscf, udp, fd, fixed_lens=()):
         o.append('    fr[i].cc.can_id = id; fr[i].cc.len = in.fr[i].len; memcpy(fr[i].cc.data, in.fr[i].data, %d);' % maxlen)
     o.append('    total += 16u + in.fr[i].len + ((4u - in.fr[i].len % 4u) % 4u);')
     o.append('  }')
-    o.append('  /* talker: builds the packet into the (arbitrary) transmit buffer exactly as its sending loop does */')
-    o.append('  uint8_t *wire = vp_g.d[0]; memcpy(wire, in.pdu0, sizeof in.pdu0);')
-    o.append('  int plen = vp_talker_build(wire, fr, %d, %d, %d, %d);' % (nframes, tscf, udp, fd))
+    o.append('  /* talker: its real main() sending loop reads the frames and hands one packet to sendto() */')
+    o.append('  for (int i = 0; i < %d; i++) vp_frames[i] = fr[i];' % nframes)
+    o.append('  vp_frame_idx = 0;')
+    o.append('  int plen = vp_talker_run(%d, %d, %d, %d);' % (nframes, tscf, udp, fd))
+    o.append('  VP_ASSERT(plen >= 0, "C19 talker sends one packet that fits the transmit buffer");')
+    o.append('  if (plen < 0) return;')
+    o.append('  uint8_t *wire = vp_g.d[0]; for (int i = 0; i < plen; i++) wire[i] = vp_wire[i];')
     o.append('  VP_ASSERT(plen == (int)(%d + %d + total), "C19 talker packet length = encapsulation + control header + padded ACF messages");' % (4 if udp else 0, 24 if tscf else 12))
     cf_off = 4 if udp else 0
     if tscf:
